@@ -166,8 +166,28 @@ def summarize(res: dict, compared):
     tuples = set()
     probes = dict(res.get("probes") or {})
     maxfrac = 0.0
+    seen_fault = seen_fail = seen_tamper = seen_edit = False
     for rec in res["history"]:
         ops += 1
+        # history probes: what had happened in this process / on this disk before a compile
+        if rec["op"] == "tamper" and rec.get("outcome") == "ok":
+            seen_tamper = True
+            probes["tamper_" + rec.get("how", "?")] = probes.get("tamper_" + rec.get("how", "?"), 0) + 1
+        if rec["op"] == "write":
+            seen_edit = True
+            probes["edit_on_disk"] = probes.get("edit_on_disk", 0) + 1
+        if rec["op"] == "introspect" and rec.get("outcome") == "ok":
+            probes["introspect"] = probes.get("introspect", 0) + 1
+        if rec["op"] in ("render", "cli") and rec.get("outcome") == "ok" and not rec.get("fired"):
+            for flag, name in ((seen_fault, "compile_after_fault_or_crash"), (seen_fail, "compile_after_failed_compile"), (seen_tamper, "compile_after_tamper"), (seen_edit, "compile_after_edit")):
+                if flag:
+                    probes[name] = probes.get(name, 0) + 1
+        if rec.get("fired"):
+            seen_fault = True
+        if rec["op"] in ("parse", "parse_string", "cli", "render") and rec.get("outcome", "ok") not in ("ok", "skipped"):
+            seen_fail = True
+        if rec["op"] == "restart":
+            seen_fail = False  # in-memory history is gone; the disk history stays
         if rec["op"] in ("parse", "parse_string", "lint", "render", "cli") and rec.get("outcome") != "skipped":
             sysops += 1
             oc = rec.get("outcome", "").split("@")[0]
